@@ -152,7 +152,9 @@ def state_digests(which="all", touched=None):
                     plain, ids = {}, {"self": id(inst)}
                     for an, av in sorted(vars(inst).items()):
                         if _is_pyparsing(av):
-                            plain[an] = "%s:%s" % (type(av).__name__, str(av))
+                            # pyparsing flattens nested And/Or lazily on first direct use (streamline):
+                            # the grammar text is compared without its grouping braces
+                            plain[an] = "%s:%s" % (type(av).__name__, str(av).replace("{", "").replace("}", ""))
                             ids[an] = id(av)
                         else:
                             plain[an] = av
@@ -369,6 +371,11 @@ class Capture:
                 elif not rest and (has_ld or has_st):
                     # data lists empty (e.g. no default throughput): same as a load with empty default
                     rec["unmodelled"] = "composed form with empty data micro-ops at line %s" % ins.line_number
+                    return
+                elif rest and (has_ld or has_st) and all(id(u) in snap["L"] or id(u) in snap["S"] for u in rest):
+                    # all data micro-ops come from the load/store tables, but not arranged as the model
+                    # (with the configuration read from the source) says: a model-vs-code difference
+                    rec["unmodelled"] = "ARRANGEMENT: data micro-ops of line %s (%s) are not <load entry><store entry> in the order of Gen.HistoryCfg" % (ins.line_number, (ins.line or "").strip()[:60])
                     return
                 else:
                     rec["unmodelled"] = "cannot classify line %s" % ins.line_number
